@@ -78,8 +78,17 @@ template <class F> auto libcall(TaskCtx& t, F&& f) -> decltype(f()) {
   sim_env_set(&t.env);
   uint64_t p0 = t.env.perms;
   long y0 = t.env.yields;
+  long a0 = t.env.k_s256, b0 = t.env.k_s128, c0 = t.env.k_u64;
   auto r = f();
   sim_env_set(nullptr);
+  if (t.stats) {
+    if (t.env.k_s256 > a0)
+      t.stats->hit("family.calls_reaching_s256_kernel");
+    if (t.env.k_s128 > b0)
+      t.stats->hit("family.calls_reaching_s128_kernel");
+    if (t.env.k_u64 > c0)
+      t.stats->hit("family.calls_reaching_uint64_kernel");
+  }
   t.perms_total += t.env.perms - p0;
   t.yields_total += (uint64_t)(t.env.yields - y0);
   return r;
